@@ -403,6 +403,22 @@ func propCodec(t *rapid.T) {
 		if got := lib.FeInt(field.NewElementFromUint64(u)); got.Cmp(new(big.Int).SetUint64(u)) != 0 {
 			t.Fatalf("NewElementFromUint64(%d) = %x", u, got)
 		}
+		// what a constructor returns is the caller's: small constants are built, updated in place, built again
+		small := uint64(rapid.IntRange(0, 300).Draw(t, "small"))
+		for _, v := range []uint64{u, small} {
+			a := field.NewElementFromUint64(v)
+			switch rapid.IntRange(0, 2).Draw(t, "update") {
+			case 0:
+				a.Add(a, field.NewElementFromUint64(v+1))
+			case 1:
+				a.Invert(a)
+			default:
+				a.Negate(a)
+			}
+			if got := lib.FeInt(field.NewElementFromUint64(v)); got.Cmp(new(big.Int).SetUint64(v)) != 0 {
+				t.Fatalf("NewElementFromUint64(%d) = %x after an earlier result of the same call was updated in place", v, got)
+			}
+		}
 	case "zero-one":
 		stat.Case("codec", classes, false, []byte(which), nil)
 		if r := fe.Zero(); r != fe || lib.FeInt(fe).Sign() != 0 || fe.IsZero() != 1 {
